@@ -11,8 +11,10 @@ with its own credential: pair from a pool (configured pair, wrong user/password,
 missing, other scheme, empty, no colon, invalid base64, unpadded, doubled space, duplicate headers, latin-1) x
 delivery (one segment per request, pipelined in one segment, random cuts).
 
-Oracle: expectation per request is derived from the *validator object itself* and the encoding class:
-canonical encodings of a pair the validator accepts MUST be accepted (forwarded exactly once, origin's 200 relayed,
+Oracle: expectation per request is derived from the CONFIGURATION (the configured single pair / "any" / the htpasswd
+entries this check wrote; not from the validator object under test, so a validator that refuses the configured
+credentials cannot pass) and the encoding class:
+canonical encodings of a configured pair MUST be accepted (forwarded exactly once, origin's 200 relayed,
 credential header absent upstream); missing / non-Basic / undecodable / rejected pairs MUST be refused (nothing of
 the request reaches any upstream connection, no connection is opened for a refused CONNECT or SOCKS5 client, the
 client gets 407+Proxy-Authenticate, 401+WWW-Authenticate, or the RFC 1929 failure status and a close);
@@ -38,7 +40,7 @@ RULE = ("validator kind x entry path x 1-4 requests with credential (pair x enco
         "the sequence contains both an accepted and a refused request, or a credential with ':' / non-ASCII / "
         "non-canonical encoding; distinct by the whole case")
 ASSUMPTIONS = ["lib/driver.py interprets commands like proxy/server.py",
-               "the validator object (SingleUser / AcceptAll / Htpasswd) is the reference for which pairs are valid",
+               "the configuration (single pair / any / generated htpasswd entries) is the reference for which pairs are valid",
                "HTTP/1 clients only (h2 entry paths are not generated)", "LDAP validator not exercised (no server)"]
 LEVEL_TEXT = ("generated-input search: ~1e5 request sequences per quick run through the real addon and layers, judged "
               "by an expectation derived from the validator and the RFC 7617/1929 encoding class; no proof beyond the "
@@ -213,19 +215,38 @@ def cred_headers(req, name: bytes):
 
 
 def accepts(validator, u, p):
-    """-> (accepted, raised): a validator that raises has not accepted the pair"""
+    """-> (accepted, raised): what the validator OBJECT says (only used for classes and messages)"""
     try:
         return bool(validator(u, p)), False
     except Exception:
         return False, True
 
 
+class ConfiguredCredentials:
+    """Reference for which pairs are valid, derived from the CONFIGURATION (proxyauth="user:pass" / "any" / the
+    htpasswd entries this check wrote), not from the validator object under test: a validator that wrongly refuses
+    the configured credentials (or everybody) must not pass.  Called like a validator."""
+
+    def __init__(self, val, obj=None):
+        self.val = val
+        self.obj = obj   # the validator object under test (for classes / messages only)
+
+    def __call__(self, u, p):
+        k = self.val["kind"]
+        if k == "any":
+            return True
+        if k == "single":
+            return (u, p) == (self.val["user"], self.val["password"])
+        return any((u, p) == (eu, ep) for eu, ep, _ in HT_ENTRIES)
+
+
 def expectation(req, validator, socks=False, any_validator=False) -> str:
     """ACCEPT / REJECT only where every reasonable reading of the header agrees; EITHER otherwise.
     Credentials the validator does not accept - it returns False *or raises* - must be refused."""
     u, p, enc = req["user"], req["password"], req["enc"]
-    ok, raised = accepts(validator, u, p)
-    req["_raises"] = raised
+    ok = bool(validator(u, p))
+    if getattr(validator, "obj", None) is not None:
+        req["_raises"] = accepts(validator.obj, u, p)[1]
     if socks:
         # RFC 1929 carries the two fields length-prefixed: every pair is representable (<= 255 bytes each)
         if enc in SOCKS_NOAUTH:
@@ -254,7 +275,7 @@ def expectation(req, validator, socks=False, any_validator=False) -> str:
     if enc in ("two-spaces", "dup-same"):
         return EITHER if ok else REJECT
     if enc == "dup-mixed":
-        return EITHER if (ok or accepts(validator, u, p + "x")[0]) else REJECT
+        return EITHER if (ok or validator(u, p + "x")) else REJECT
     raise HarnessError("enc %r" % enc)
 
 
@@ -336,7 +357,7 @@ def _make_msg(path, i, rq, validator, name, proxy_style, tunnel):
     if tunnel:
         b, toks, segs = _http_request(i, rq, "origin", name, with_cred=False)
         return {"kind": "inner", "bytes": b, "expect": ACCEPT, "tokens": [], "idx": i, "req": rq, "segs": segs}
-    exp = expectation(rq, validator, any_validator=type(validator).__name__ == "AcceptAll")
+    exp = expectation(rq, validator, any_validator=validator.val["kind"] == "any")
     if path in ("regular-connect", "upstream-connect") and rq["connect"]:
         b, toks = _connect_request(i, rq, name)
         return {"kind": "connect", "bytes": b, "expect": exp, "tokens": toks, "idx": i, "req": rq}
@@ -358,9 +379,9 @@ def run_case(env, case):
             "transparent": "transparent", "socks5": "socks5"}[path]
     env.configure(proxyauth=pa, connection_strategy="eager" if case["eager"] else "lazy",
                   stream_large_bodies=case.get("stream_large_bodies"), body_size_limit=case.get("body_size_limit"))
-    validator = env.proxyauth.validator
-    if validator is None:
+    if env.proxyauth.validator is None:
         raise HarnessError("validator not configured for %r" % pa)
+    validator = ConfiguredCredentials(val, env.proxyauth.validator)
     ctx = make_context(env, mode)
     if path == "transparent":
         ctx.server.address = ORIGIN
@@ -493,7 +514,7 @@ def check_case(case, ctx):
         if not head_ok:
             fail("socks5-method-selection:" + klass, "client got %r" % cout[:12])
         if accepted0 and exp == REJECT:
-            fail("must-reject-but-accepted:" + klass, "status %r, validator says %r" % (status, accepts(validator, m0["req"]["user"], m0["req"]["password"])))
+            fail("must-reject-but-accepted:" + klass, "status %r, validator says %r" % (status, accepts(validator.obj, m0["req"]["user"], m0["req"]["password"])))
         if not accepted0:
             if exp == ACCEPT:
                 fail("must-accept-but-rejected:" + klass, "client got %r" % cout[:12])
@@ -582,7 +603,7 @@ def check_case(case, ctx):
             fail("must-reject-but-accepted:" + klass, "response %r forwarded %r" % (resp, [r.start for _, r in fw]))
         if not accepted and exp == ACCEPT:
             fail("must-accept-but-rejected:" + klass, "response %r; validator(%r,%r)=%r" % (
-                resp, rq["user"], rq["password"], accepts(validator, rq["user"], rq["password"])))
+                resp, rq["user"], rq["password"], accepts(validator.obj, rq["user"], rq["password"])))
         if not accepted:
             if resp is None or resp.status != challenge[0] or not resp.get_all(challenge[1]):
                 fail("reject-answer:" + klass, "expected %d with %s, got %r" % (challenge[0], challenge[1], resp))
